@@ -25,6 +25,20 @@ class _Sym(ast.NodeTransformer):
             return ast.copy_location(ast.Name(id='K', ctx=ast.Load()), n)
         return self.generic_visit(n)
 
+    def visit_IfExp(self, n):
+        # `self.threshold if X is None else X` (and the mirrored form): the threshold in force for this call
+        t = n.test
+        if isinstance(t, ast.Compare) and len(t.ops) == 1 and isinstance(t.ops[0], (ast.Is, ast.IsNot)) and len(t.comparators) == 1:
+            a, b = t.left, t.comparators[0]
+            if isinstance(a, ast.Constant) and a.value is None:
+                a, b = b, a
+            if isinstance(b, ast.Constant) and b.value is None and isinstance(a, ast.Name):
+                dflt, given = (n.body, n.orelse) if isinstance(t.ops[0], ast.Is) else (n.orelse, n.body)
+                if isinstance(given, ast.Name) and given.id == a.id and isinstance(dflt, ast.Attribute) and dflt.attr == 'threshold' \
+                        and isinstance(dflt.value, ast.Name) and dflt.value.id in RUNTIME_NAMES:
+                    return ast.copy_location(ast.Name(id='T', ctx=ast.Load()), n)
+        return self.generic_visit(n)
+
     def visit_Call(self, n):
         if isinstance(n.func, ast.Name) and n.func.id == 'len' and len(n.args) == 1 and isinstance(n.args[0], ast.Attribute) \
                 and n.args[0].attr == 'parties' and isinstance(n.args[0].value, ast.Name) and n.args[0].value.id in RUNTIME_NAMES:
